@@ -61,12 +61,14 @@ def pick_dialect():
     blank between date and time.  All of them are read identically by the loader."""
     if FORCE_DIALECT[0] is not None:
         d = FORCE_DIALECT[0]
-        return {"bom": tuple(d["bom"]), "crlf": d["crlf"], "time": d["time"]}
+        return {"bom": tuple(d["bom"]), "crlf": d["crlf"], "time": d["time"], "quote": d.get("quote", "none")}
     r = DIALECT_RNG[0]
     if r is None or r.random() < 0.7:
-        return {"bom": (False, False, False), "crlf": False, "time": "padded"}
+        return {"bom": (False, False, False), "crlf": False, "time": "padded", "quote": "none"}
     return {"bom": tuple(r.random() < 0.4 for _ in range(3)), "crlf": r.random() < 0.4,
-            "time": r.choice(["padded", "padded", "hour", "all", "blanks"])}
+            "time": r.choice(["padded", "padded", "hour", "all", "blanks"]),
+            # RFC 4180 quoting as R's write.csv and spreadsheets produce it: text fields, or every field
+            "quote": r.choice(["none", "none", "text", "all"])}
 
 
 def restyle(text, style):
@@ -81,13 +83,18 @@ def restyle(text, style):
     return text
 
 
-def write_csv(path, header, rows, fmt=fmt_time, bom=False, crlf=False, time_style="padded"):
+def write_csv(path, header, rows, fmt=fmt_time, bom=False, crlf=False, time_style="padded", quote="none"):
     """rows: list of (epoch_utc, value_text)."""
+    def qt(x):         # a text field
+        return '"%s"' % x if quote in ("text", "all") else x
+
+    def qn(x):         # a numeric field
+        return '"%s"' % x if quote == "all" else x
     with open(path, "w", encoding="utf-8-sig" if bom else "utf-8", newline="\r\n" if crlf else "\n") as fh:
-        fh.write("datetime,%s\n" % header)
+        fh.write("%s,%s\n" % (qt("datetime"), qt(header)))
         for t, v in rows:
             # (a row given as (None, value) or (text, value) is written as it is: rows without / with a malformed timestamp)
-            fh.write("%s,%s\n" % ("" if t is None else (t if isinstance(t, str) else restyle(fmt(t), time_style)), v))
+            fh.write("%s,%s\n" % (qt("" if t is None else (t if isinstance(t, str) else restyle(fmt(t), time_style))), qn(v)))
 
 
 def write_dataset(ctx_dir, name, rain, et, level, fmt=fmt_time):
@@ -99,9 +106,9 @@ def write_dataset(ctx_dir, name, rain, et, level, fmt=fmt_time):
     z = os.path.join(ctx_dir, name + "_z.txt")
     d = pick_dialect()
     LAST_DIALECT[0] = d
-    write_csv(p, "precipitation rate (mm/h)", [(t, txt(v)) for t, v in rain], fmt, d["bom"][0], d["crlf"], d["time"])
-    write_csv(e, "evapotranspiration (mm/h)", [(t, txt(v)) for t, v in et], fmt, d["bom"][1], d["crlf"], d["time"])
-    write_csv(z, "wtd (mm)", [(t, txt(v)) for t, v in level], fmt, d["bom"][2], d["crlf"], d["time"])
+    write_csv(p, "precipitation rate (mm/h)", [(t, txt(v)) for t, v in rain], fmt, d["bom"][0], d["crlf"], d["time"], d.get("quote", "none"))
+    write_csv(e, "evapotranspiration (mm/h)", [(t, txt(v)) for t, v in et], fmt, d["bom"][1], d["crlf"], d["time"], d.get("quote", "none"))
+    write_csv(z, "wtd (mm)", [(t, txt(v)) for t, v in level], fmt, d["bom"][2], d["crlf"], d["time"], d.get("quote", "none"))
     return p, e, z
 
 
